@@ -625,6 +625,24 @@ pub fn replay_main(path: &str) -> i32 {
             return 2;
         }
     };
+    if doc["sequence"].is_object() {
+        apply_variant(&variant);
+        let sq = &doc["sequence"];
+        let tier = Tier::parse(doc["tier"].as_str().unwrap_or("quick")).unwrap_or(Tier::Quick);
+        let v = run_sequence(check, tier, sq["verif_seed"].as_u64().unwrap_or(DEFAULT_SEED), sq["first"].as_u64().unwrap_or(0), sq["stride"].as_u64().unwrap_or(1), sq["last"].as_u64().unwrap_or(0), true);
+        let want = doc["signature"].as_str().unwrap_or("");
+        return match v {
+            Some(v) => {
+                println!("{}: {} [{}] {}", if v.signature(id) == want { "reproduced" } else { "a different violation occurred" }, v.clause, v.locus, v.detail);
+                println!("VIOLATION property={} replay={}", id, path);
+                1
+            }
+            None => {
+                println!("no violation: the replay file does not reproduce on this tree");
+                0
+            }
+        };
+    }
     let p = Params {
         property: id.to_string(),
         tier: Tier::parse(doc["tier"].as_str().unwrap_or("quick")).unwrap_or(Tier::Quick),
@@ -1026,6 +1044,9 @@ pub fn check_main(check: &'static dyn Check, tier: Tier) -> i32 {
             .arg(sig)
             .arg(&variant)
             .arg(&replay_dir)
+            .arg(v["g"].as_u64().unwrap_or(0).to_string())
+            .arg(nw.to_string())
+            .arg(seed.to_string())
             .stdin(Stdio::null())
             .stderr(Stdio::inherit())
             .output();
@@ -1233,7 +1254,7 @@ pub fn selftest_fingerprints(n: u64, only: Option<&str>, part: Option<(u64, u64)
 // `nxsim report ...` (internal): regenerate one violating run under this process's variant,
 // minimise it, write the replay file, print one machine-readable line.
 
-pub fn report_main(check: &dyn Check, tier: Tier, section: u32, index: u64, seed: u64, sig: &str, variant: &str, replay_dir: &str) -> i32 {
+pub fn report_main(check: &dyn Check, tier: Tier, section: u32, index: u64, seed: u64, sig: &str, variant: &str, replay_dir: &str, g: u64, nw: u64, verif_seed: u64) -> i32 {
     apply_variant(variant);
     let p = Params { property: check.id().to_string(), tier, section, index, seed, trace: false };
     let ex = execute(check, &p, None, false);
@@ -1243,6 +1264,30 @@ pub fn report_main(check: &dyn Check, tier: Tier, section: u32, index: u64, seed
     }
     let same = ex.ctx.violation.as_ref().map(|x| x.signature(check.id()) == sig).unwrap_or(false);
     if !same {
+        // The run does not fail on its own in a fresh process: the violation may depend on state
+        // the library keeps across calls in one process (a static, a cache). Re-execute the
+        // worker's whole run sequence up to this run; if that reproduces it, the replay file
+        // records the sequence instead of a tape.
+        if nw > 0 {
+            match run_sequence(check, tier, verif_seed, g % nw, nw, g, false) {
+                Some(v) if v.signature(check.id()) == sig => {
+                    let _ = std::fs::create_dir_all(replay_dir);
+                    let path = format!("{}/{}-{}-sequence-{:016x}.json", replay_dir, check.id(), tier.name(), mix(&[seed, hash_str(sig)]));
+                    let doc = json!({
+                        "property": check.id(), "tier": tier.name(), "variant": variant, "signature": sig,
+                        "clause": v.clause, "locus": v.locus, "detail": v.detail, "minimised": false,
+                        "sequence": {"first": g % nw, "stride": nw, "last": g, "verif_seed": verif_seed},
+                        "section": section, "index": index, "seed": seed, "tape": Value::Null,
+                        "note": "history-dependent: the run fails only after the earlier runs of the same worker process (state kept across calls inside the library); replay re-executes runs first, first+stride, ... last in one process",
+                    });
+                    if std::fs::write(&path, serde_json::to_string_pretty(&doc).unwrap()).is_ok() {
+                        println!("REPORT {}", json!({"ok": true, "path": path, "detail": format!("{} [only after the preceding runs of the same process]", v.detail), "original_len": 0, "final_len": 0, "reruns": 0}));
+                        return 0;
+                    }
+                }
+                _ => {}
+            }
+        }
         println!("REPORT {}", json!({"ok": false, "error": format!("did not reproduce: got {:?}", ex.ctx.violation.as_ref().map(|v| v.signature(check.id())))}));
         return 2;
     }
@@ -1264,4 +1309,41 @@ pub fn report_main(check: &dyn Check, tier: Tier, section: u32, index: u64, seed
             2
         }
     }
+}
+
+/// Executes global runs first, first+stride, ..., last of the plan in this process and returns the
+/// violation of the last one (what a worker process with that index did).
+pub fn run_sequence(check: &dyn Check, tier: Tier, verif_seed: u64, first: u64, stride: u64, last: u64, trace_last: bool) -> Option<Violation> {
+    let plan = check.plan(tier);
+    let mut g = first;
+    let mut out = None;
+    while g <= last {
+        let (section, index) = locate(&plan, g)?;
+        let p = Params {
+            property: check.id().to_string(),
+            tier,
+            section,
+            index,
+            seed: run_seed(verif_seed, check.id(), section, index),
+            trace: trace_last && g == last,
+        };
+        let ex = execute(check, &p, None, false);
+        // the in-worker determinism recheck re-executes every 64th run: keep the same call sequence
+        let runs_so_far = (g - first) / stride.max(1) + 1;
+        if runs_so_far % 64 == 1 {
+            let mut p2 = p.clone();
+            p2.trace = false;
+            let _ = execute(check, &p2, None, false);
+        }
+        if g == last {
+            if trace_last {
+                for l in &ex.ctx.trace {
+                    println!("{}", l);
+                }
+            }
+            out = ex.ctx.violation;
+        }
+        g += stride.max(1);
+    }
+    out
 }
